@@ -486,12 +486,12 @@ def run(ctx):
     # ---------------------------------------------------------------- consumer
     ccases = gen_cons_exhaustive(rng, cap, loads=(0, 2, cap - 4) if not ctx.thorough else (0, 1, 3, 7, cap - 4, cap - 1))
     ccases += gen_cons_boundary(rng, cap)
-    ccases += [gen_cons_random(rng, 4) for _ in range(ctx.n(250, 4000))]
-    ccases += [gen_cons_malformed(rng) for _ in range(ctx.n(150, 2500))]
+    ccases += [gen_cons_random(rng, 4) for _ in range(ctx.n(400, 4000))]
+    ccases += [gen_cons_malformed(rng) for _ in range(ctx.n(250, 2500))]
     # ---------------------------------------------------------------- provider
-    classes = ['seq'] * ctx.n(45, 500) + ['interleaved'] * ctx.n(45, 600) + ['burst'] * ctx.n(4, 40)
+    classes = ['seq'] * ctx.n(60, 500) + ['interleaved'] * ctx.n(60, 600) + ['burst'] * ctx.n(5, 40)
     pcases = [gen_prov_case(rng, c, qcap) for c in classes]
-    conc = {'rounds': [gen_conc_round(rng, rng.randint(3, 5), rng.randint(4, 7)) for _ in range(ctx.n(2, 14))]}
+    conc = {'rounds': [gen_conc_round(rng, rng.randint(3, 5), rng.randint(4, 7)) for _ in range(ctx.n(3, 14))]}
 
     impl = ctx.impl('c09_impl', {'cons': [c['events'] for c in ccases], 'prov': pcases, 'conc': conc},
                     timeout=ctx.n(400, 3000))
@@ -588,7 +588,7 @@ def run(ctx):
                     'reports': traces[0]['reports'], 'result_handles': traces[0]['futures']})
 
     # concurrent consumers
-    chist = {'rounds': 0, 'threads': 0, 'calls': 0, 'lock_checked_accesses': 0, 'report_overtook_response': 0}
+    chist = {'rounds': 0, 'threads': 0, 'calls': 0, 'lock_checked_accesses': 0}
     clits = []
     for rnd, tr in zip(conc['rounds'], impl['conc']):
         chist['rounds'] += 1
